@@ -141,7 +141,9 @@ Others(X, M) ==
    syms |-> M.syms, fns |-> M.fns, rets |-> M.rets,
    \* with deletions the symbol tables are judged by C18_ThenDeleted instead
    rest |-> IF X.del = {} THEN M.rest
-            ELSE [M.rest EXCEPT !.esi = <<>>, !.tix = <<>>, !.imp = <<>>, !.exp = <<>>, !.symsfull = <<>>]]
+            ELSE [M.rest EXCEPT !.esi = <<>>, !.tix = <<>>, !.imp = <<>>, !.exp = <<>>, !.symsfull = <<>>,
+                                \* scale/host facts of the expressions that are (still) there
+                                !.sxo = {q \in @ : <<q[1], q[2]>> \in {Site(e) : e \in M.sx}}]]
 C18_Precise(X) == Others(X, X.N) = Others(X, X.E)
 PreciseDiff(X) ==
   LET a == Others(X, X.E)  b == Others(X, X.N)
